@@ -404,17 +404,24 @@ impl PayloadHistory {
         // Iterate backwards over the deltas. Skip over those older than we
         // need.
         let mut iter = self.deltas.iter().rev();
-        for delta in &mut iter {
-            // delta.serial() is the target serial of the delta, serial is
-            // the target serial the caller has. So we can skip over anything
-            // smaller.
-            match delta.serial().partial_cmp(&serial) {
-                Some(cmp::Ordering::Greater) => return None,
-                Some(cmp::Ordering::Equal) => break,
-                Some(cmp::Ordering::Less) => continue,
-                // Serials exactly half the number space apart cannot be
-                // compared. We never issued such a serial.
-                None => return None
+        // If the oldest delta starts at the caller’s serial, all deltas are
+        // needed and nothing must be skipped.
+        let need_all = self.deltas.back().map(|delta| {
+            delta.serial() == serial.add(1)
+        }).unwrap_or(false);
+        if !need_all {
+            for delta in &mut iter {
+                // delta.serial() is the target serial of the delta, serial
+                // is the target serial the caller has. So we can skip over
+                // anything smaller.
+                match delta.serial().partial_cmp(&serial) {
+                    Some(cmp::Ordering::Greater) => return None,
+                    Some(cmp::Ordering::Equal) => break,
+                    Some(cmp::Ordering::Less) => continue,
+                    // Serials exactly half the number space apart cannot
+                    // be compared. We never issued such a serial.
+                    None => return None
+                }
             }
         }
 
